@@ -494,6 +494,32 @@ class Normalizer(ast.NodeTransformer):
             new = ast.Assign(targets=[tgt], value=v.args[2], type_comment=None)
             self.count += 1
             return ast.copy_location(new, node)
+        # N15  d.setdefault(k, []).append(v)  ->  if k in d: d[k].append(v) else: d[k] = [v]   (d, k pure reads)
+        if isinstance(v, ast.Call) and isinstance(v.func, ast.Attribute) and v.func.attr == 'append' and len(v.args) == 1 \
+                and not v.keywords and isinstance(v.func.value, ast.Call) and isinstance(v.func.value.func, ast.Attribute) \
+                and v.func.value.func.attr == 'setdefault' and len(v.func.value.args) == 2 and not v.func.value.keywords:
+            sd = v.func.value
+            d_, k_, dflt = sd.func.value, sd.args[0], sd.args[1]
+            empty_list = (isinstance(dflt, ast.List) and not dflt.elts) or (
+                isinstance(dflt, ast.Call) and isinstance(dflt.func, ast.Name) and dflt.func.id == 'list' and not dflt.args)
+
+            def pure(e):
+                return all(not isinstance(x, (ast.Call, ast.NamedExpr, ast.Await, ast.Yield)) or
+                           (isinstance(x, ast.Call) and isinstance(x.func, ast.Name) and x.func.id in ('str', 'int', 'len', 'id'))
+                           for x in ast.walk(e))
+            if empty_list and pure(d_) and pure(k_):
+                test = ast.Compare(left=copy.deepcopy(k_), ops=[ast.In()], comparators=[copy.deepcopy(d_)])
+                hit = ast.Expr(value=ast.Call(func=ast.Attribute(
+                    value=ast.Subscript(value=copy.deepcopy(d_), slice=copy.deepcopy(k_), ctx=ast.Load()),
+                    attr='append', ctx=ast.Load()), args=[copy.deepcopy(v.args[0])], keywords=[]))
+                miss = ast.Assign(targets=[ast.Subscript(value=copy.deepcopy(d_), slice=copy.deepcopy(k_), ctx=ast.Store())],
+                                  value=ast.List(elts=[v.args[0]], ctx=ast.Load()), type_comment=None)
+                new = ast.If(test=test, body=[hit], orelse=[miss])
+                for x in ast.walk(new):
+                    ast.copy_location(x, node)
+                ast.fix_missing_locations(new)
+                self.count += 1
+                return new
         return node
 
 
